@@ -1501,6 +1501,13 @@ class SyncObj(object):
 
             self.__raftLastApplied = data[1][1]
 
+            # Commands of this node that the dump covers are never passed to __applyLogEntries here,
+            # so their callbacks would be lost. Whether they were applied (and with what result) is
+            # not known to this node: report the outcome as open instead of staying silent forever.
+            for idx in sorted(idx for idx in self.__commandsWaitingCommit if idx <= self.__raftLastApplied):
+                for _, callback in self.__commandsWaitingCommit.pop(idx):
+                    callback(None, FAIL_REASON.LEADER_CHANGED)
+
             if self.__conf.dynamicMembershipChange:
                 self.__updateClusterConfiguration([node for node in data[3] if node != self.__selfNode])
             self.__onSetCodeVersion(self.__enabledCodeVersion)
